@@ -83,7 +83,7 @@ def shrink_factory(ctx, prop):
 
 def run(ctx, prop, escalated=False):
     quick = ctx.tier == "quick" and not escalated
-    n_random = 700 if quick else 12000
+    n_random = 2500 if quick else 40000
     cases = []
     for item in load_corpus():
         cases.append(run_one(ctx, prop, item["scenario"], ops=item["ops"]))
